@@ -154,5 +154,5 @@ def doc_event(text_in, result):
           "cycles": result.get("cycle", []), "ndiags": len(result.get("diags", [])), "inScope": True}
     if "file" in result:
         f = result["file"]
-        ev["file"] = {"ok": bool(f.get("ok")), "banner": bool(f.get("banner_first")), "eq": bool(f.get("model_eq"))}
+        ev["file"] = {"ok": bool(f.get("ok")), "banner": bool(f.get("banner_first")), "eq": bool(f.get("model_eq")), "fix": bool(f.get("text_fix"))}
     return ev
